@@ -39,6 +39,9 @@ def run(ctx):
         ctx.run_rule("R2-open-flags", r2b_symlink_safe, F)
         ctx.run_rule("R3-root-clamp", r3_clamp, F)
         ctx.run_rule("R4-relative-paths", r4_paths, F)
+        # the root clamp compares with the root's node: no forget may evict the root (C08.R3, root exempt in forget_one itself)
+        from rules import c08
+        ctx.run_rule("R3-forget-shape", c08.r3_forget, F)
         A = ctx.facts("A", required=False)
         if A is not None:
             ctx.run_rule("R1-name-gate-async", r1_gate_async, A)
